@@ -334,6 +334,7 @@ class Function:
         self.ret = j['ret']
         self.sig = j.get('sig')
         self.is_const = j.get('const', False)
+        self.linkage = j.get('linkage')
         self.nodes = {}
         self.body = Node(j['body'], self) if j.get('body') else None
         self._cfg = None
@@ -431,6 +432,39 @@ class DB:
         if len(c) > 1:
             raise AnalysisBroken('anchor ambiguous: %s (%d candidates: %s)' % (qn, len(c), [f.sig for f in c]))
         return c[0]
+
+    def local_helpers(self, fn):
+        """[(callee Function, number of call sites in fn)] for the file-local helpers fn calls: free functions with internal
+        linkage (static / anonymous namespace) or inline, defined with a body in the same file. Extracting a block into such
+        a helper must not change what a rule sees, so rules that enumerate code follow these calls."""
+        out = {}
+        for c in fn.calls():
+            if c.k != 'CallExpr' or not c.callee:
+                continue
+            for g in self.by_qn.get(c.callee, []):
+                if g.body is not None and g.rec is None and g.file == fn.file and g.linkage in ('static', 'inline') and g is not fn:
+                    out.setdefault(g.key, [g, 0])[1] += 1
+        return [(g, k) for g, k in out.values()]
+
+    def with_helpers(self, fns):
+        """[(Function, weight)]: fns (weight 1) and, transitively, their file-local helpers weighted by the number of call
+        paths from fns - so that instance counts are invariant under extraction of a block into a helper"""
+        weight = {}
+        order = []
+        roots = {f.key for f in fns}
+
+        def go(f, w, path):
+            if f.key not in weight:
+                weight[f.key] = 0
+                order.append(f)
+            weight[f.key] += w
+            for g, k in self.local_helpers(f):
+                if g.key in path or g.key in roots:
+                    continue
+                go(g, w * k, path | {g.key})
+        for f in fns:
+            go(f, 1, {f.key})
+        return [(f, weight[f.key]) for f in order]
 
     def record(self, t):
         r = self.records.get(t)
